@@ -67,12 +67,12 @@ Definition bg_pre (s : str) : bool :=
 Definition general_ok (g : GeneralState) : bool :=
   file_ok (g_audio_file g) && lead_in_ok (g_audio_lead_in g) && i32_ok (g_preview_time g) &&
   in_lim32 (g_stack_leniency g) && enum4_ok (g_mode g) && enum4_ok (g_countdown g) &&
-  i32_ok (g_countdown_offset g).
+  i32_ok (g_countdown_offset g) && enum4_ok (g_default_sample_bank g).
 
 Definition general_pre (g : GeneralState) : bool :=
   file_pre (g_audio_file g) && lead_in_ok (g_audio_lead_in g) && i32_ok (g_preview_time g) &&
   in_lim32 (g_stack_leniency g) && enum4_ok (g_mode g) && enum4_ok (g_countdown g) &&
-  i32_ok (g_countdown_offset g).
+  i32_ok (g_countdown_offset g) && enum4_ok (g_default_sample_bank g).
 
 (* SampleSet is written from the first sample point; the default sample volume, a
    non-positive countdown offset and the special style outside mania are not carried *)
@@ -144,20 +144,24 @@ Definition colors_ok (c : ColorsState) : bool :=
   forallb (fun x => color_name_ok (cc_name x) && color_ok (cc_color x)) (co_custom_colors c) &&
   distinct_names (co_custom_colors c).
 
+(* ---------- control points: sample banks are enum values ---------- *)
+
+Definition sample_banks_ok (c : ControlPoints) : bool := forallb (fun p => enum4_ok (sp_bank p)) (cp_sample c).
+
 (* ---------- the six simple sections of a map ---------- *)
 
 Definition simple_ok (m : BeatmapV) : bool :=
   let h := bmv_ho m in
   i32_ok (bmv_version m) && general_ok (hov_general h) && editor_ok (bmv_editor m) &&
   metadata_ok (bmv_metadata m) && difficulty_ok (hov_difficulty h) && events_ok (hov_events h) &&
-  colors_ok (bmv_colors m).
+  colors_ok (bmv_colors m) && sample_banks_ok (hov_control_points h).
 
 (* the decoder's image: [simple_pre] always (Proofs/EncImage.v); [simple_ok] outside D23 *)
 Definition simple_pre (m : BeatmapV) : bool :=
   let h := bmv_ho m in
   i32_ok (bmv_version m) && general_pre (hov_general h) && editor_ok (bmv_editor m) &&
   metadata_ok (bmv_metadata m) && difficulty_ok (hov_difficulty h) && events_pre (hov_events h) &&
-  colors_ok (bmv_colors m).
+  colors_ok (bmv_colors m) && sample_banks_ok (hov_control_points h).
 (* known finding D23: a file name in which the normalisation produced "//" *)
 Definition d23_class (m : BeatmapV) : bool :=
   has_ss (g_audio_file (hov_general (bmv_ho m))) || has_ss (ev_background_file (hov_events (bmv_ho m))).
